@@ -1,5 +1,5 @@
 """Outgoing.tla : C04, C05, C06"""
-import json
+import json, os
 import specs
 from specs import graph_property
 
@@ -113,6 +113,12 @@ TOK_GEN = [dict(name="tok", tiers=["quick", "dev"], consts=TOK_CONSTS, harness=[
            dict(name="tokT", tiers=["thorough"], consts=TOK_CONSTS_T, harness=[tok_harness(TOK_CONSTS_T)], shards=16, rej_sample=0)]
 
 
+TOK_REC_CONSTS = dict(User=["u1", "u2"], Token=["x", "y"], MaxTx=8, MaxBatch=5, MaxFx=6, MaxExt=6, MaxEv=7, InitBal=8, KB=2)
+TOK_RECORDER = specs.make_recorder(module="OutgoingTok", mcmodule="OutgoingTokMC", pkg="outgoing", name="tok2", consts=TOK_REC_CONSTS, overrides=None,
+                                   harness=tok_harness(TOK_REC_CONSTS), reset_op=TOK_RESET, tiers=["quick", "thorough", "dev"], walks=6, walklen=60, procs=4,
+                                   test="TestRecordTok")
+
+
 def outgoing(pid):
     def run(work, args):
         kw = dict(pid=pid, module="Outgoing", mcmodule="OutgoingMC", pkg="outgoing", formulas=FORMULAS[pid],
@@ -129,7 +135,7 @@ def outgoing(pid):
                    test="TestReplayBulk", test_path="TestPathBulk")
         tkw = dict(pid=pid, module="OutgoingTok", mcmodule="OutgoingTokMC", pkg="outgoing", formulas=TOK_FORMULAS[pid],
                    mc_cfgs=TOK_MC, gen_cfgs=TOK_GEN, reset_op=TOK_RESET, level_note="", design_ref="5/C04-C06", assumptions=[],
-                   test="TestReplayTok", test_path="TestPathTok")
+                   test="TestReplayTok", test_path="TestPathTok", recorder=TOK_RECORDER)
         if rp:
             if rmod == "OutgoingTok":
                 return graph_property(work, args, **tkw)
@@ -138,6 +144,9 @@ def outgoing(pid):
             if rmod == "OutgoingBulk":
                 return graph_property(work, args, **bkw)
             return graph_property(work, args, **kw)
+        part = os.environ.get("VERIF_PART")   # development aid: run one part of the composition only
+        if part:
+            return graph_property(work, args, **{"tok": tkw, "bulk": bkw, "attest": akw, "main": kw}[part])
         # main part
         rc1, ev1, viol1, dev1 = graph_property(work, args, write=False, **kw)
         if viol1:
